@@ -22,7 +22,7 @@ func init() {
 		Rule: "case = (type with required fields, value, message omitting a subset of fields at any nesting level, or carrying a field's id with another wire type). Enumerated floor: 6-field structs at field-id sets straddling the 64-bit words of the presence set (0,1,63,64,65,127,128,255,256,4095,4096,32767,32768,65534,65535) with every subset of fields required (64 subsets per id set) and a random subset omitted; then random nested types. Half of the cases run with the pool sanitizer (recycled presence set all ones) and a priming decode of a complete message. Oracle: error iff some recognised struct instance lacks a required field (computed from the schema-less parse tree); the error is a ProtocolException INVALID_DATA naming a missing Go field; the encoder output carries every required field. distinct = distinct (type shape, omitted-id set); non-trivial = at least one required field exists in the type",
 		Plan: func(tier string) []BuildPlan {
 			if tier == "thorough" {
-				return []BuildPlan{{"plain", c09Enumerated + 300000}, {"checkptr", c09Enumerated + 60000}}
+				return []BuildPlan{{"plain", c09Enumerated + 1000000}, {"checkptr", c09Enumerated + 200000}}
 			}
 			return []BuildPlan{{"plain", c09Enumerated + 6000}, {"checkptr", c09Enumerated + 2000}}
 		},
